@@ -493,7 +493,9 @@ package pubsub
 // if it had been told that it opened (unless the instance is shutting down) - so the per-peer
 // state created on the inbound side is always released, in whatever order streams come and go.
 //@ func (*PubSub).handleNewStream$1
-//@   property C13
+//@   property C13 C12
+//@   safe
+//@   requires receiver: p != nil
 //@   modifies monitor(PubSub.inboundStreamsMx)
 //@   ensures registration-released: !(peer in p.inboundStreams && p.inboundStreams[peer].s == s)
 //@   ensures newer-registration-kept: lin(peer in p.inboundStreams && p.inboundStreams[peer].s != s) ==> peer in p.inboundStreams && p.inboundStreams[peer] == lin(p.inboundStreams[peer])
